@@ -1,13 +1,50 @@
-//! Engine `exmodel` (C16, knapsack): pointwise correspondence between the DP model, relaxation and ranking of the shipped
-//! knapsack example — the example's own source file is compiled into the harness by path — and their Lean model
-//! `DdoModel/Examples/KnapsackModel.lean` (the model the well-formedness theorems are about): variable order, domains,
-//! transitions, costs, rough upper bounds along random walks; merges of states met at the same depth; relaxed costs; ranking.
+//! Engine `exmodel` (C16, knapsack and misp): pointwise correspondence between the DP model, relaxation and ranking of a
+//! shipped example — the example's own source file is compiled into the harness by path — and their Lean model
+//! `DdoModel/Examples/KnapsackDp.lean` / `MispDp.lean` (the models the well-formedness theorems of `KnapsackModel.lean` /
+//! `MispModel.lean` are about): variable order, domains, transitions, costs, rough upper bounds along random walks
+//! (knapsack) or along random width-bounded layered expansions (misp: its variable order is computed from the states of
+//! the layer); merges of states met at the same depth; relaxed costs; ranking.
 #[path = "/repo/ddo/examples/knapsack/main.rs"]
 #[allow(dead_code, unused_imports, clippy::all)]
 mod ex_knapsack;
+
+/// Back door into the misp example.  Everything that builds a `Misp` or a `MispRelax` is private to the example's
+/// module (fields, `read_instance`), and the module is compiled from the example's file *verbatim* (`#[path]`), so
+/// nothing can be added to it.  But an `impl` block is crate-global wherever it is written, and the body of a function
+/// of the module sees the module's private items.  The example's `main` (dead code here) calls `println!`; macros
+/// defined textually before a `mod` declaration shadow the prelude macros inside that module.  Hence: `println!` is
+/// redefined for `ex_misp` only, ONE of the calls in `main` (`println!("Aborted:    {}", …)`) expands to the `impl` of
+/// this trait, all others to `std::println!`.  No code of the model (`Problem`, `Relaxation`, `StateRanking`
+/// implementations, `read_instance`) contains a `println!`: what is observed is the example's code, untouched.
+pub trait MispBack: Sized {
+    /// the example's own `read_instance`
+    fn read(path: &std::path::Path) -> Option<Self>;
+    fn weights(&self) -> Vec<isize>;
+    /// the field `neighbors`: for every vertex the COMPLEMENT of its adjacency list
+    fn non_neighbors(&self) -> Vec<BitSet>;
+    fn relaxation(&self) -> ex_misp::MispRelax<'_>;
+}
+#[allow(unused_macros)]
+macro_rules! println {
+    ("Aborted:    {}", $e:expr) => {
+        impl crate::eng_exmodel::MispBack for Misp {
+            fn read(path: &std::path::Path) -> Option<Misp> { read_instance(path).ok() }
+            fn weights(&self) -> Vec<isize> { self.weight.clone() }
+            fn non_neighbors(&self) -> Vec<BitSet> { self.neighbors.clone() }
+            fn relaxation(&self) -> MispRelax<'_> { MispRelax { pb: self } }
+        }
+        std::println!("Aborted:    {}", $e);
+    };
+    ($($t:tt)*) => { std::println!($($t)*) };
+}
+#[path = "/repo/ddo/examples/misp/main.rs"]
+#[allow(dead_code, unused_imports, non_local_definitions, clippy::all)]
+mod ex_misp;
 use crate::{out::Out, rng::Rng, Args};
 use ddo::*;
+use bit_set::BitSet;
 use ex_knapsack::{KPRanking, KPRelax, Knapsack, KnapsackState};
+use ex_misp::{Misp, MispRanking};
 
 /// `KnapsackState`'s fields are private to the example: read them from its `Debug` text
 fn dc(s: &KnapsackState) -> (usize, usize) {
@@ -63,12 +100,203 @@ fn run_one(cap: usize, profit: &[isize], weight: &[usize], walks: u64, rng: &mut
     ev.join(" ; ")
 }
 
+
+// ------------------------------------------------------------------------------------------------------------- misp
+/// a state (`BitSet`) as the sorted list of its vertices; the empty set is `-`
+fn set(s: &BitSet) -> String { if s.is_empty() { "-".into() } else { s.iter().map(|x| x.to_string()).collect::<Vec<_>>().join(" ") } }
+fn sets(l: &[BitSet]) -> String { l.iter().map(set).collect::<Vec<_>>().join(" , ") }
+fn var(v: Option<Variable>) -> String { v.map(|v| v.id().to_string()).unwrap_or("n".into()) }
+fn ord(o: std::cmp::Ordering) -> &'static str { match o { std::cmp::Ordering::Less => "lt", std::cmp::Ordering::Equal => "eq", _ => "gt" } }
+
+/// the instance file: `style` bit 0 = a comment line, bit 1 = `n` lines before the `e` lines, bits 2.. = the set of
+/// vertices that get an `n` line (the others must weigh 1, the reader's default)
+fn misp_file(n: usize, w: &[isize], edges: &[(usize, usize)], style: u64) -> String {
+    let mut file = String::new();
+    if style & 1 == 1 { file.push_str("c random instance of the ddo verification harness\n"); }
+    file.push_str(&format!("p edge {} {}\n", n, edges.len()));
+    let node_lines: String = (0..n).filter(|v| (style >> (2 + v)) & 1 == 1).map(|v| format!("n {} {}\n", v + 1, w[v])).collect();
+    let edge_lines: String = edges.iter().map(|(u, v)| format!("e {} {}\n", u + 1, v + 1)).collect();
+    if style & 2 == 2 { file.push_str(&node_lines); file.push_str(&edge_lines); } else { file.push_str(&edge_lines); file.push_str(&node_lines); }
+    file
+}
+
+/// one misp instance (read from `file` by the example's own `read_instance`): a layered expansion from the root, the
+/// layers being squashed to `width` states (deletion or merge of the worst ranked ones) as a restricted / relaxed
+/// compilation would; `next_variable` is asked for the un-squashed layer, as ddo does.
+fn run_misp(file: &str, width: usize, rng: &mut Rng) -> String {
+    static CNT: std::sync::atomic::AtomicUsize = std::sync::atomic::AtomicUsize::new(0);
+    let path = std::env::temp_dir().join(format!("ddo_verif_exmodel_{}_{}.clq", std::process::id(), CNT.fetch_add(1, std::sync::atomic::Ordering::Relaxed)));
+    std::fs::write(&path, file).expect("cannot write the instance file");
+    let pb = <Misp as MispBack>::read(&path);
+    let _ = std::fs::remove_file(&path);
+    let pb = match pb { Some(p) => p, None => return "unreadable".into() };
+    let rlx = pb.relaxation();
+    let n = pb.nb_variables();
+    let ints = |l: &[isize]| l.iter().map(|x| x.to_string()).collect::<Vec<_>>().join(" ");
+    let mut ev: Vec<String> = vec![];
+    ev.push(format!("nv {}", n));
+    ev.push(format!("inst {} : {}", ints(&pb.weights()), sets(&pb.non_neighbors())));
+    let s0 = pb.initial_state();
+    ev.push(format!("init {} : {}", set(&s0), pb.initial_value()));
+    ev.push(format!("rub {} : {}", set(&s0), rlx.fast_upper_bound(&s0)));
+    ev.push(format!("next 0 : : {}", var(pb.next_variable(0, &mut std::iter::empty()))));
+    let mut layer: Vec<BitSet> = vec![s0];
+    let mut d = 0;
+    loop {
+        // every branching removes the chosen vertex from all states: more than n layers would mean that next_variable never answers None
+        if d > n + 1 { ev.push("runaway".into()); break; }
+        let x = pb.next_variable(d, &mut layer.iter());
+        ev.push(format!("next {} : {} : {}", d, sets(&layer), var(x)));
+        // the same question about a random list of states of the layer (repetitions allowed)
+        if layer.len() >= 2 && rng.chance(1, 2) {
+            let sub: Vec<BitSet> = (0..rng.range(1, 4)).map(|_| rng.pick(&layer).clone()).collect();
+            ev.push(format!("next {} : {} : {}", d, sets(&sub), var(pb.next_variable(d, &mut sub.iter()))));
+        }
+        let x = match x { Some(x) => x, None => break };
+        if layer.len() >= 2 {
+            for _ in 0..2 { let (a, b) = (rng.pick(&layer), rng.pick(&layer)); ev.push(format!("rk {} , {} : {}", set(a), set(b), ord(MispRanking.compare(a, b)))); }
+        }
+        // merges of arbitrary lists of states of the layer (0 to 3 states)
+        if rng.chance(1, 3) {
+            let pick: Vec<BitSet> = (0..rng.range(0, 3)).map(|_| rng.pick(&layer).clone()).collect();
+            ev.push(format!("mg {} : {}", sets(&pick), set(&rlx.merge(&mut pick.iter()))));
+        }
+        // a layer that is too wide is squashed: best ranked first, then the tail is deleted (restriction) or merged (relaxation)
+        if layer.len() > width {
+            layer.sort_unstable_by(|a, b| MispRanking.compare(a, b).reverse());
+            if rng.chance(1, 3) { layer.truncate(width); } else {
+                let tail = layer.split_off(width - 1);
+                let m = rlx.merge(&mut tail.iter());
+                ev.push(format!("mg {} : {}", sets(&tail), set(&m)));
+                let c = rng.range(-9, 9) as isize;
+                ev.push(format!("rx {} : {}", c, rlx.relax(&tail[0], &tail[1], &m, Decision { variable: x, value: 1 }, c)));
+                if !layer.contains(&m) { layer.push(m); }
+            }
+        }
+        // expansion on the variable chosen for the un-squashed layer (the merged state included)
+        let mut next: Vec<BitSet> = vec![];
+        for s in &layer {
+            ev.push(format!("imp {} : {} : {}", set(s), x.id(), pb.is_impacted_by(x, s) as u8));
+            let mut dom: Vec<isize> = vec![];
+            pb.for_each_in_domain(x, s, &mut |dd: Decision| dom.push(dd.value));
+            ev.push(format!("dom {} : {} : {}", set(s), x.id(), ints(&dom)));
+            for val in dom {
+                let dec = Decision { variable: x, value: val };
+                let s2 = pb.transition(s, dec);
+                ev.push(format!("tr {} : {} {} : {} : {}", set(s), x.id(), val, set(&s2), pb.transition_cost(s, &s2, dec)));
+                if !next.contains(&s2) { ev.push(format!("rub {} : {}", set(&s2), rlx.fast_upper_bound(&s2))); next.push(s2); }
+            }
+        }
+        // probes off the walk: any variable, any value, on a state of the layer
+        if rng.chance(1, 2) {
+            let y = Variable(rng.below(n as u64) as usize);
+            let s = rng.pick(&layer);
+            ev.push(format!("imp {} : {} : {}", set(s), y.id(), pb.is_impacted_by(y, s) as u8));
+            let mut dom: Vec<isize> = vec![];
+            pb.for_each_in_domain(y, s, &mut |dd: Decision| dom.push(dd.value));
+            ev.push(format!("dom {} : {} : {}", set(s), y.id(), ints(&dom)));
+            let dec = Decision { variable: y, value: rng.below(2) as isize };
+            let s2 = pb.transition(s, dec);
+            ev.push(format!("tr {} : {} {} : {} : {}", set(s), y.id(), dec.value, set(&s2), pb.transition_cost(s, &s2, dec)));
+        }
+        layer = next;
+        d += 1;
+    }
+    ev.join(" ; ")
+}
+
+/// `run_misp` in a thread of its own: the example keeps the occurrence counters of `next_variable` in a `thread_local`
+/// vector that is sized by the FIRST instance the thread sees (a later, larger instance indexes it out of bounds); one
+/// thread per instance = one process per instance, which is how the example binary is used.  Several instances at a
+/// time (`read_instance` compiles four regular expressions per call: about 1 ms).
+fn run_misp_fresh(jobs: &[(String, usize, u64)]) -> Vec<String> {
+    std::thread::scope(|sc| {
+        let hs: Vec<_> = jobs.iter().map(|(file, width, seed)| sc.spawn(move || { let mut r = Rng::new(*seed); crate::out::catch(|| run_misp(file, *width, &mut r)) })).collect();
+        hs.into_iter().map(|h| h.join().ok().flatten().unwrap_or("panic".into())).collect()
+    })
+}
+
+fn misp_case(n: usize, w: &[isize], edges: &[(usize, usize)], width: usize, seed: u64, style: u64) -> String {
+    format!("misp | {} {} {} {} | {} {} {}", n, edges.len(), w.iter().map(|x| x.to_string()).collect::<Vec<_>>().join(" "),
+        edges.iter().map(|(u, v)| format!("{} {}", u + 1, v + 1)).collect::<Vec<_>>().join(" "), width, seed, style)
+}
+
+fn gen_misp_cases(out: &mut Out, rng: &mut Rng, ninst: usize) {
+    let mut jobs: Vec<(String, usize, u64)> = vec![];
+    let mut cases: Vec<(String, Vec<String>)> = vec![];
+    for _ in 0..ninst {
+        let mut tags: Vec<String> = vec!["misp".into()];
+        let n = if rng.chance(1, 50) { 0 } else { rng.range(1, 10) as usize };
+        // weights: positive / unit and two / zero included / negative included / all negative / no `n` line at all / `n` lines for half of the vertices
+        let mode = *rng.pick(&[0u64, 0, 1, 2, 3, 3, 4, 5, 5, 6]);
+        let mut w = vec![1isize; n];
+        let mut declared = 0u64;
+        for v in 0..n {
+            let decl = match mode { 5 => false, 6 => rng.chance(1, 2), _ => true };
+            if decl {
+                declared |= 1 << v;
+                w[v] = match mode { 0 => rng.range(1, 9), 1 => rng.range(1, 2), 2 => rng.range(0, 4), 3 => rng.range(-5, 9), 4 => rng.range(-9, -1), _ => rng.range(1, 9) } as isize;
+            }
+        }
+        tags.push(["w_positive", "w_small", "w_zero_incl", "w_mixed_sign", "w_all_negative", "unweighted", "default_weights"][mode as usize].into());
+        if w.iter().any(|x| *x < 0) { tags.push("negative_weights".into()); }
+        if w.iter().any(|x| *x == 0) { tags.push("zero_weight".into()); }
+        // density: each unordered pair with probability num/8 (0 = no edge, 8 = complete graph), random orientation
+        let num = *rng.pick(&[0u64, 1, 2, 3, 4, 6, 7, 8]);
+        let mut edges: Vec<(usize, usize)> = vec![];
+        for u in 0..n { for v in (u + 1)..n { if rng.below(8) < num { edges.push(if rng.chance(1, 2) { (u, v) } else { (v, u) }); } } }
+        for i in (1..edges.len()).rev() { let j = rng.below(i as u64 + 1) as usize; edges.swap(i, j); }
+        tags.push(format!("density_{}", num));
+        if !edges.is_empty() && rng.chance(1, 5) {
+            for _ in 0..rng.range(1, 3) { let (u, v) = *rng.pick(&edges); let at = rng.below(edges.len() as u64 + 1) as usize; edges.insert(at, if rng.chance(1, 2) { (u, v) } else { (v, u) }); }
+            tags.push("duplicate_edges".into());
+        }
+        // out of the domain of the specification (a vertex with a self-loop belongs to no independent set): the model must still mirror the code
+        if n >= 1 && rng.chance(1, 40) { let v = rng.below(n as u64) as usize; edges.push((v, v)); tags.push("ood_self_loop".into()); }
+        if n == 0 { tags.push("empty_graph".into()); }
+        let style = rng.below(4) | (declared << 2);
+        let width = rng.range(1, 6) as usize;
+        let seed = rng.next() >> 1;
+        jobs.push((misp_file(n, &w, &edges, style), width, seed));
+        cases.push((misp_case(n, &w, &edges, width, seed, style), tags));
+    }
+    let par = std::thread::available_parallelism().map(|x| x.get()).unwrap_or(1).min(16);
+    let mut it = cases.into_iter();
+    for chunk in jobs.chunks(par) {
+        for imp in run_misp_fresh(chunk) {
+            let (case, mut tags) = it.next().unwrap();
+            if imp.contains(" mg ") { tags.push("merged".into()); }
+            out.case_tagged(&case, &imp, &tags.join(" "));
+        }
+    }
+}
+
+/// replay of `misp | n m w.. (u v).. | width seed style`
+fn replay_misp(parts: &[&str]) -> String {
+    let t: Vec<i64> = parts[1].split_whitespace().map(|x| x.parse().unwrap()).collect();
+    let (n, m) = (t[0] as usize, t[1] as usize);
+    let w: Vec<isize> = t[2..2 + n].iter().map(|x| *x as isize).collect();
+    let edges: Vec<(usize, usize)> = (0..m).map(|i| (t[2 + n + 2 * i] as usize - 1, t[3 + n + 2 * i] as usize - 1)).collect();
+    let u: Vec<u64> = parts[2].split_whitespace().map(|x| x.parse().unwrap()).collect();
+    run_misp_fresh(&[(misp_file(n, &w, &edges, u[2]), u[0] as usize, u[1])]).pop().unwrap()
+}
+
 pub fn run_exmodel(a: &Args) {
     let mut out = Out::new(&a.out, "exmodel");
     let mut rng = Rng::new(a.seed);
     if let Some(r) = &a.replay {
-        // "knapsack | n cap p.. w.. | walks seed"
+        // "knapsack | n cap p.. w.. | walks seed"  or  "misp | n m w.. (u v).. | width seed style"
         let parts: Vec<&str> = r.split('|').collect();
+        if parts[0].trim() == "max2sat" {
+            let imp = crate::exm_max2sat::replay(&parts);
+            out.case_tagged(r, &imp, "replay");
+            out.finish(); return;
+        }
+        if parts[0].trim() == "misp" {
+            let imp = replay_misp(&parts);
+            out.case_tagged(r, &imp, "replay");
+            out.finish(); return;
+        }
         let t: Vec<i64> = parts[1].split_whitespace().map(|x| x.parse().unwrap()).collect();
         let n = t[0] as usize;
         let u: Vec<u64> = parts[2].split_whitespace().map(|x| x.parse().unwrap()).collect();
@@ -92,5 +320,7 @@ pub fn run_exmodel(a: &Args) {
         if cap == 0 { tags.push("zero_capacity".into()); }
         out.case_tagged(&format!("knapsack | {} {} {} {} | {} {}", n, cap, profit.iter().map(|x| x.to_string()).collect::<Vec<_>>().join(" "), weight.iter().map(|x| x.to_string()).collect::<Vec<_>>().join(" "), walks, wseed), &imp, &tags.join(" "));
     }
+    gen_misp_cases(&mut out, &mut rng, if a.thorough { 12000 } else { 1500 });
+    crate::exm_max2sat::generate(&mut out, &mut rng, if a.thorough { 6000 } else { 600 });
     out.finish();
 }
